@@ -18,7 +18,7 @@ func (g *Generator) makeTypeMatch() {
 
 			same, conv := matchType(f1.typ, f2.typ)
 			_, convback := matchType(f2.typ, f1.typ)
-			if !g.writeDestSet.Has(f2.Name) && !f2.IsGet {
+			if !g.writeDestSet.Has(f2.Name) && !f2.IsGet && !f1.IsSet {
 				//f2 = f1
 				//f2 = (type)f1
 				if same || conv {
@@ -34,7 +34,7 @@ func (g *Generator) makeTypeMatch() {
 				}
 			}
 
-			if !g.writeSrcSet.Has(f1.Name) && !f1.IsGet {
+			if !g.writeSrcSet.Has(f1.Name) && !f1.IsGet && !f2.IsSet {
 				if same || convback {
 					f2.Target = f1
 					g.writeSrcSet.Adds(f1.Name)
